@@ -7,7 +7,7 @@ SymInt(int) carries a lazy modular normal form   value = N / D  (mod P)   with a
   deg  ghost: degree of the Shamir sharing this value is a share of (0 = public)
   factors  ghost: if the value is a product of field values, the list of factors (zero test without nonlinear terms)
 """
-import z3, itertools
+import z3, itertools, os
 
 POISON = 0x5EEDBADC0FFEE
 
@@ -43,7 +43,7 @@ class Ctx:
         self.log = []
         self.nonaffine_ok = 0
         self.solver = z3.Solver()
-        self.solver.set('timeout', 20000)
+        self.solver.set('timeout', int(os.environ.get('VERIF_SX_QUERY_MS', '90000')))     # sized for 16 busy cores: slowest query ~3 s idle, >20 s seen under load
 
     def add(self, f):
         self.pc.append(f); self.solver.add(f)
